@@ -423,7 +423,7 @@ PROPS = {
                        "(granularity: a step under one mutex whose effects are only visible under that mutex is atomic; "
                        "kill_logs and the stepping API are sequential functions); OS scheduler fairness and parking_lot "
                        "condvar semantics (A-os). Partial by nature."),
-        "lean": ["Pdb.Props.C15"],
+        "lean": ["Pdb.Props.C15", "Pdb.Proofs.Throttle", "Pdb.Proofs.Order"],
         "harness": [{"cmd": "c15", "quick": 40, "thorough": 600, "model": False, "timeout": 3000}],
         "rule": ("real Db with background workers in a child process under a watchdog (60 s of silence between progress "
                  "lines, observed < 0.6 s; an expiry counts only if it reproduces on an immediate re-run with the same "
